@@ -39,9 +39,11 @@ Barrier = BarrierType()
 
 
 def _to_naive_utc_time(value: dt.datetime | None) -> dt.datetime | None:
+    # Naive datetimes denote local time (that is what the file stores report), and astimezone
+    # treats them as such, so every value is compared as the instant it denotes.
     return (
         value.astimezone(dt.timezone.utc).replace(tzinfo=None)
-        if value and value.tzinfo
+        if value is not None
         else value
     )
 
